@@ -29,18 +29,45 @@ def scaled_cov_values(nat, dists, x):
 KNOWN_COV = 'C11:pdf-cdf-latent-covariance-scaled-by-marginal-std'
 
 
+def frozen(rng, dist, shapes, loc=None, scale=None):
+    """a frozen scipy distribution whose parameters are passed positionally, by keyword, or mixed (random choice):
+    the transformation must depend on the distribution only, never on how it was written down"""
+    names = [n.strip() for n in dist.shapes.split(',')] if dist.shapes else []
+    style = rng.choice(['positional', 'keyword', 'mixed'])
+    args, kw = [], {}
+    for n, v in zip(names, shapes):
+        if style == 'positional' or (style == 'mixed' and not kw and rng.random() < 0.5):
+            args.append(v)
+        else:
+            kw[n] = v
+    for n, v in (('loc', loc), ('scale', scale)):
+        if v is None:
+            continue
+        if style == 'positional' and not kw and len(args) == len(names) + (0 if n == 'loc' else (1 if loc is not None else 99)):
+            args.append(v)
+        else:
+            kw[n] = v
+    return dist(*args, **kw)
+
+
 def families(rng):
     from scipy import stats
     return [
-        ('norm', lambda: stats.norm(rng.choice([0.0, 1.0, -2.0]), rng.choice([1.0, 2.0, 0.5]))),
-        ('lognorm', lambda: stats.lognorm(rng.choice([0.25, 0.5]), scale=rng.choice([1.0, 2.0]))),
-        ('expon', lambda: stats.expon(scale=rng.choice([1.0, 2.0]))),
-        ('gamma', lambda: stats.gamma(rng.choice([2.0, 3.5]), scale=rng.choice([1.0, 0.5]))),
-        ('uniform', lambda: stats.uniform(rng.choice([0.0, -1.0]), rng.choice([1.0, 3.0]))),
-        ('weibull', lambda: stats.weibull_min(rng.choice([1.5, 2.0]), scale=2.0)),
-        ('gumbel', lambda: stats.gumbel_r(1.0, rng.choice([1.0, 2.0]))),
-        ('beta', lambda: stats.beta(2.0, 3.0)),
+        ('norm', lambda: frozen(rng, stats.norm, (), rng.choice([0.0, 1.0, -2.0]), rng.choice([1.0, 2.0, 0.5]))),
+        ('lognorm', lambda: frozen(rng, stats.lognorm, (rng.choice([0.25, 0.5, 1.0]),), None, rng.choice([1.0, 2.0]))),
+        ('expon', lambda: frozen(rng, stats.expon, (), None, rng.choice([1.0, 2.0]))),
+        ('gamma', lambda: frozen(rng, stats.gamma, (rng.choice([2.0, 3.5]),), None, rng.choice([1.0, 0.5]))),
+        ('uniform', lambda: frozen(rng, stats.uniform, (), rng.choice([0.0, -1.0]), rng.choice([1.0, 3.0]))),
+        ('weibull', lambda: frozen(rng, stats.weibull_min, (rng.choice([1.5, 2.0]),), None, 2.0)),
+        ('gumbel', lambda: frozen(rng, stats.gumbel_r, (), 1.0, rng.choice([1.0, 2.0]))),
+        ('beta', lambda: frozen(rng, stats.beta, (2.0, rng.choice([3.0, 5.0])))),
     ]
+
+
+def shape_of(ds):
+    """the first shape parameter of a frozen distribution however it was passed"""
+    names = [n.strip() for n in ds.dist.shapes.split(',')] if ds.dist.shapes else []
+    return ds.args[0] if ds.args else ds.kwds[names[0]]
 
 
 def random_corr(rng, d):
@@ -52,6 +79,12 @@ def random_corr(rng, d):
         R = C / np.outer(s, s)
         R = np.round(R, 2)
         R = (R + R.T) / 2
+        if d >= 3 and rng.random() < 0.4:
+            # sparse matrices: some pairs uncorrelated, in particular a zero entry before a non-zero one in a row
+            for a in range(d):
+                for b in range(a + 1, d):
+                    if rng.random() < 0.45 or (a == 0 and b == 1):
+                        R[a, b] = R[b, a] = 0.0
         np.fill_diagonal(R, 1.0)
         if np.all(np.linalg.eigvalsh(R) > 0.2):
             return R
@@ -64,8 +97,11 @@ def explore(res, rng, n):
     from ffpack import rpm
     fams = families(rng)
     for i in range(n):
-        d = rng.choice([1, 2, 2, 3])
+        d = rng.choice([1, 2, 2, 3, 3, 4])
         picks = [rng.choice(fams) for _ in range(d)]
+        if d >= 2 and rng.random() < 0.35:
+            picks[1] = picks[0]           # two members of one family (differently parameterised more often than not)
+            res.stat('same_family_pair')
         dists = [mk() for _, mk in picks]
         names = [nm for nm, _ in picks]
         R = random_corr(rng, d) if (d > 1 and rng.random() < 0.8) else np.eye(d)
@@ -73,7 +109,7 @@ def explore(res, rng, n):
         res.evaluations += 1
         res.nontrivial.add(json.dumps(case, default=str))
         res.stat('dim_%d' % d)
-        res.stat('identity_corr' if np.allclose(R, np.eye(d)) else 'correlated')
+        res.stat('identity_corr' if np.allclose(R, np.eye(d)) else ('correlated_sparse' if np.any(R == 0) else 'correlated_dense'))
         if i < 2:
             res.samples.append(case)
         try:
@@ -90,6 +126,15 @@ def explore(res, rng, n):
             fail(res, 'round trip U->X->U / X->U->X', case, {'u': u.tolist(), 'u_back': np.array(u2).tolist()})
         if not np.allclose(JU @ JX, np.eye(d), atol=1e-8) or not np.allclose(JX @ JU, np.eye(d), atol=1e-8):
             fail(res, 'the two Jacobians are not inverses of each other', case, (JU @ JX).tolist())
+        # lower tail (exact in binary64: cdf values down to 1e-20 are representable; the upper tail is not tested because
+        # 1 - cdf saturates beyond ~8 sigma, a numerical limit of the cdf/ppf route and not of the transformation)
+        ut = np.array([rng.uniform(-8.7, -5.0) if k == 0 else rng.uniform(-1, 1) for k in range(d)])
+        if float(np.max(nat.L @ ut)) <= 3.5:
+            res.stat('lower_tail_round_trip')
+            xt, _ = nat.getX(ut)
+            ub, _ = nat.getU(xt)
+            if not np.allclose(ub, ut, rtol=1e-6, atol=1e-6):
+                fail(res, 'round trip U->X->U in the lower tail', case, {'u': ut.tolist(), 'u_back': np.array(ub).tolist()})
         # finite differences: the matrix returned by getU is d(getX)/dU, the one returned by getX is d(getU)/dX
         h = 1e-6
         fdX = np.column_stack([(nat.getX(u + h * e)[0] - nat.getX(u - h * e)[0]) / (2 * h) for e in np.eye(d)])
@@ -109,7 +154,7 @@ def explore(res, rng, n):
                 if names[a] == 'norm' and names[b] == 'norm' and abs(nat.rhoZ[a, b] - R[a, b]) > 1e-6:
                     fail(res, 'latent correlation differs from the prescribed one for normal marginals', case, [nat.rhoZ[a, b], R[a, b]])
                 if names[a] == 'lognorm' and names[b] == 'lognorm':
-                    s1, s2 = dists[a].args[0], dists[b].args[0]
+                    s1, s2 = shape_of(dists[a]), shape_of(dists[b])
                     want = math.log(1 + R[a, b] * math.sqrt((math.exp(s1 * s1) - 1) * (math.exp(s2 * s2) - 1))) / (s1 * s2)
                     if abs(nat.rhoZ[a, b] - want) > 1e-5:
                         fail(res, 'latent correlation differs from the lognormal closed form', case, [nat.rhoZ[a, b], want])
@@ -159,6 +204,56 @@ def explore(res, rng, n):
                 fail(res, 'cdf is not the integral of the pdf', case, [part, float(nat.cdf(mid))], sig=KNOWN_COV if scaled else None)
 
 
+def same_family(res, rng):
+    """two differently parameterised members of one family, written positionally and by keyword: the latent correlation
+    is a function of the two distributions only, and is the closed form for a lognormal pair"""
+    core.import_impl()
+    import numpy as np
+    from scipy import stats
+    from ffpack import rpm
+    table = [(stats.lognorm, 's', (0.25, 1.0)), (stats.lognorm, 's', (0.5, 0.75)), (stats.gamma, 'a', (1.5, 6.0)),
+             (stats.weibull_min, 'c', (0.8, 3.0)), (stats.t, 'df', (5.0, 30.0)), (stats.chi2, 'df', (2.0, 9.0))]
+    for dist, nm, (p1, p2) in table:
+        rho = rng.choice([0.3, 0.6, -0.4])
+        R = [[1.0, rho], [rho, 1.0]]
+        case = {'family': dist.name, 'shapes': [p1, p2], 'corr': rho}
+        res.evaluations += 1
+        res.nontrivial.add(json.dumps(case))
+        res.stat('same_family_keyword_vs_positional')
+        try:
+            zs = {}
+            for style, mk in (('positional', lambda p: dist(p)), ('keyword', lambda p: dist(**{nm: p})),
+                              ('mixed', lambda p: dist(p, scale=1.0) if p == p1 else dist(**{nm: p}))):
+                zs[style] = float(rpm.NatafTransformation([mk(p1), mk(p2)], R).rhoZ[0, 1])
+            zs['swapped'] = float(rpm.NatafTransformation([dist(**{nm: p2}), dist(**{nm: p1})], R).rhoZ[0, 1])
+        except Exception as e:  # noqa
+            fail(res, 'constructor raised for an admissible correlation matrix', case, repr(e)[:200])
+            continue
+        if max(zs.values()) - min(zs.values()) > 1e-9:
+            fail(res, 'latent correlation depends on how the marginals are written down (positional / keyword / order)', case, zs)
+        if dist is stats.lognorm:
+            want = math.log(1 + rho * math.sqrt((math.exp(p1 * p1) - 1) * (math.exp(p2 * p2) - 1))) / (p1 * p2)
+            if abs(zs['keyword'] - want) > 1e-5:
+                fail(res, 'latent correlation differs from the lognormal closed form', case, [zs, want])
+
+
+def sparse_corr(res):
+    """uncorrelated pairs mixed with correlated ones: every prescribed entry must reach the latent matrix"""
+    core.import_impl()
+    import numpy as np
+    from scipy import stats
+    from ffpack import rpm
+    for R in ([[1, 0, .5], [0, 1, .3], [.5, .3, 1]], [[1, 0, 0, .4], [0, 1, .2, 0], [0, .2, 1, .3], [.4, 0, .3, 1]]):
+        d = len(R)
+        case = {'marginals': 'norm(k, 1 + k)', 'corr': R}
+        res.evaluations += 1
+        res.nontrivial.add(json.dumps(case))
+        res.stat('sparse_corr_corpus')
+        nat = rpm.NatafTransformation([stats.norm(k, 1.0 + k) for k in range(d)], R)
+        if not np.allclose(nat.rhoZ, np.array(R, dtype=float), atol=1e-6):
+            fail(res, 'latent correlation differs from the prescribed one for normal marginals', case, np.array(nat.rhoZ).tolist())
+
+
 def fallback_search(res):
     """the last-resort root search: make the first two fsolve calls report failure (fault injected from outside)"""
     core.import_impl()
@@ -189,11 +284,13 @@ def fallback_search(res):
 
 def run(tier, seed):
     res = core.Result(PID, tier, seed)
-    res.rule = ('eight marginal families with random parameters x dimension 1-3 x random positive-definite correlation matrices (or identity) '
+    res.rule = ('eight marginal families with random parameters x dimension 1-4 x random positive-definite correlation matrices (dense, sparse with zero entries, or identity), parameters written positionally / by keyword '
                 'x random points; distinct by (marginals, correlation)')
     core.prove(res, PID, MODULES, clean=(tier == 'thorough'))
     n = 14 if tier == 'quick' else 400
     explore(res, random.Random(seed), n)
+    same_family(res, random.Random(seed + 1))
+    sparse_corr(res)
     fallback_search(res)
     res.traces = res.evaluations
     res.disagreements_checked = res.evaluations
